@@ -50,11 +50,17 @@ func (b *BitSet) Equal(other *BitSet) bool {
 	if b.set != other.set {
 		return false
 	}
-	if len(b.data) != len(other.data) {
-		return false
+	shorter, longer := b.data, other.data
+	if len(shorter) > len(longer) {
+		shorter, longer = longer, shorter
 	}
-	for i := range b.data {
-		if b.data[i] != other.data[i] {
+	for i := range shorter {
+		if shorter[i] != longer[i] {
+			return false
+		}
+	}
+	for _, word := range longer[len(shorter):] {
+		if word != 0 {
 			return false
 		}
 	}
